@@ -416,7 +416,8 @@ impl<T: Eq + Hash> FrequentItemsSketch<T> {
     where
         T: Clone, // for self.hash_map.active_keys()
     {
-        if self.is_empty() {
+        // a sketch whose last purge removed every counter still carries its stream weight and offset
+        if self.stream_weight == 0 {
             let mut bytes = SketchBytes::with_capacity(8);
             bytes.write_u8(PREAMBLE_LONGS_EMPTY);
             bytes.write_u8(SERIAL_VERSION);
